@@ -153,6 +153,23 @@ def cases(ctx):
                     "src": "*=0x008000\nnop\n.include 'zz_missing_inc.s'\nrts\n", "spec": {"t": "c15"}})
         out.append({"kind": "missing-include", "rom": "low", "fname": fname, "files": {}, "count_empty": True,
                     "src": "*=0x008000\n.incbin 'zz_missing.bin'\n.table 'zz_missing.tbl'\n", "spec": {"t": "c15"}})
+    # blocks that end on, or run over, the last byte of a bank at the top of a mapped range (also the highest one of the map)
+    flat40 = ".map identifier=1 bank_range=0x00,0x3f addr_range=0x8000,0xffff mask=0x8000\n"
+    for rom, srcs in (("low", ["*=0xcffffe\n.db 1, 2\n", "*=0xcffffe\n.dw 1, 2\nnop\n", "*=0xcfffff\nnop\n", "*=0x6ffffe\n.db 1, 2\n", "*=0x6ffffd\njmp.l 0x008000\nnop\n",
+                               "*=0x7ffffe\n.db 1, 2, 3\n", "*=0x00fffe\n.db 1, 2\nl:\n.dl l\n", "*=0x008000\n@=0xcffffe\n.db 1, 2\nnop\n"]),
+                      ("high", ["*=0xfffffe\n.dw 0x8000\n", "*=0xfffffc\njmp.l 0xc00000\n", "*=0xffffff\nnop\nnop\n", "*=0x7dfffe\n.db 1, 2, 3\n", "*=0xc00000\n@=0xfffffe\n.dw 1\nnop\n"]),
+                      (None, [flat40 + "*=0x3ffffe\n.db 1, 2\n", flat40 + "*=0x3ffffe\n.db 1, 2, 3\nnop\n", flat40 + "*=0x3fffff\nlda.w #0x1234\n"])):
+        for src in srcs:
+            out.append({"kind": "top-of-map", "rom": rom, "src": src, "files": {}, "count_empty": True, "spec": {"t": "c15"}})
+    # long chains of symbols each computed from the ones before (twice the previous one, Fibonacci), used where the label
+    # pass needs a value: the work is linear in the number of lines, whatever the outcome
+    for op, first in (("=", "zz_c0 = 1\nzz_c1 = 1\n"), (":=", "zz_c0 := 1\nzz_c1 := 1\n")):
+        dbl = first + "".join(f"zz_c{k} {op} zz_c{k - 1} + zz_c{k - 1}\n" for k in range(2, 49))
+        fib = first + "".join(f"zz_c{k} {op} zz_c{k - 1} + zz_c{k - 2}\n" for k in range(2, 61))
+        for chain, last in ((dbl, "zz_c48"), (fib, "zz_c60")):
+            for use in (f"lda #{last} >> 40\n", f"lda {last} & 0xFF\n", f"*={last} & 0x7FFF | 0x8000\nnop\n", f"@=0x7e0000 + ({last} & 0xFF)\nnop\n",
+                        f".dl {last} & 0xFFFFFF\n", f"lda.b #{last} >> 40\n"):
+                add("symbol-chain", "*=0x008000\n" + chain + use + "rts\n")
     add("cyclic-include", "*=0x008000\n.include 'a.s'\n", {"a.s": ".include 'b.s'\n", "b.s": ".include 'a.s'\n"})
     add("self-include", "*=0x008000\n.include 'prog.s'\n", {"prog.s": "*=0x008000\n.include 'prog.s'\n"})
     add("loop", "*=0x008000\n.for i := 0, 300 {\n.db i\n}\n")
